@@ -295,7 +295,7 @@ func checkC04(r *Run) {
 	c04Misc(r, m, hinfo)
 
 	// ---- r5: who writes open state ---------------------------------------------------
-	for _, fa := range m.DB.Fields {
+	for _, fa := range m.fields() {
 		if !fa.Write || (fa.Key != "p9.fidRef.opened" && fa.Key != "p9.fidRef.openFlags") {
 			continue
 		}
@@ -331,7 +331,7 @@ func checkC04(r *Run) {
 				}
 				if k := kv.Key.(*ast.Ident).Name; k == "opened" || k == "openFlags" {
 					key := fmt.Sprintf("%s: literal sets %s", fi.Key, k)
-					r.check(fi.Key == "p9.tlcreate.do", "r5", key, kv.Pos(), "create literal (Tlcreate returns an open fid)", "a reference is born open outside Tlcreate")
+					r.check(m.onlyFor(fi, "p9.tlcreate.do"), "r5", key, kv.Pos(), "create literal (Tlcreate returns an open fid)", "a reference is born open outside Tlcreate")
 				}
 			}
 			return true
@@ -672,29 +672,45 @@ func c04Misc(r *Run, m *ServerModel, hinfo map[*FuncInfo]*HandlerInfo) {
 		if fi == nil {
 			continue
 		}
-		found, okDefault := false, false
+		// every path on which the pending-xattr state was compared with each state the handler
+		// serves and matched none of them ends in EINVAL - whether the dispatch is a switch with
+		// a default or a chain of ifs
+		found, okDefault := false, true
+		// the function (the handler or the literal it hands to safelyRead) that dispatches
+		dispatchFn := map[ast.Node]bool{}
 		ast.Inspect(fi.Decl.Body, func(n ast.Node) bool {
-			sw, ok := n.(*ast.SwitchStmt)
-			if !ok || sw.Tag == nil || !strings.HasSuffix(r.L.str(sw.Tag), ".pendingXattr.op") {
-				return true
-			}
-			found = true
-			for _, c := range sw.Body.List {
-				cc := c.(*ast.CaseClause)
-				if cc.List == nil && len(cc.Body) > 0 {
-					if ret, ok := cc.Body[len(cc.Body)-1].(*ast.ReturnStmt); ok {
-						if v, ok := errnoOf(info, ret); ok && v == 22 {
-							okDefault = true
-						}
-					}
-				}
+			if sel, ok := n.(*ast.SelectorExpr); ok && sel.Sel.Name == "op" && strings.HasSuffix(r.L.str(sel), ".pendingXattr.op") {
+				dispatchFn[r.L.enclosingFunc(sel)] = true
 			}
 			return true
 		})
+		for _, ex := range m.DB.Exits[fi] {
+			if ex.St.Dead || ex.Ret == nil || !dispatchFn[ex.Fn] {
+				continue
+			}
+			for _, p := range ex.St.Paths {
+				nOp, allFalse := 0, true
+				for k, v := range p {
+					if strings.Contains(k, ".pendingXattr.op == ") {
+						nOp++
+						if v {
+							allFalse = false
+						}
+					}
+				}
+				if nOp < 2 || !allFalse {
+					continue
+				}
+				found = true
+				if v, isErrno := errnoOf(info, ex.Ret); !isErrno || v != 22 {
+					okDefault = false
+				}
+			}
+		}
 		if !found {
-			r.undecided("r4", "p9."+nm+": xattr dispatch", fi.Decl.Pos(), "no switch on pendingXattr.op found")
+			r.undecided("r4", "p9."+nm+": xattr dispatch", fi.Decl.Pos(), "no path on which pendingXattr.op matched none of the served states was found")
 		} else {
-			r.check(okDefault, "r4", "p9."+nm+": xattr dispatch default", fi.Decl.Pos(), "default → EINVAL", "the switch on pendingXattr.op has no default returning EINVAL: an unexpected xattr state would fall through")
+			r.check(okDefault, "r4", "p9."+nm+": xattr dispatch default", fi.Decl.Pos(), "unserved state → EINVAL", "a pending-xattr state the handler does not serve does not end in EINVAL: an unexpected xattr state would fall through")
 		}
 	}
 	// CanOpen is true exactly for regular/dir/pipe/block/char.
@@ -726,7 +742,7 @@ func isMaskedFlags(s string) bool {
 func openFlagsStoresMasked(r *Run, m *ServerModel) bool {
 	info := m.Info
 	all, n := true, 0
-	for _, fa := range m.DB.Fields {
+	for _, fa := range m.fields() {
 		if !fa.Write || fa.Key != "p9.fidRef.openFlags" {
 			continue
 		}
